@@ -157,7 +157,8 @@ def generate(rng, seed, run, tier, focus='C11', xmode=False):
         elif rng.random() < 0.5:
             suf = '.x'
         else:
-            suf = rng.choice(['.txt', '.cxt', '.csv', '.py', '.dat', '.json'])   # misleading: explicit frmat must win
+            # misleading: explicit frmat must win; names that look compressed or backed up are just names
+            suf = rng.choice(['.txt', '.cxt', '.csv', '.py', '.dat', '.json', '.gz', natural + '.gz', '.bz2', natural + '~', '.bak'])
         return base + suf
 
     def live(node=None, kind=None):
@@ -247,7 +248,7 @@ def generate(rng, seed, run, tier, focus='C11', xmode=False):
             t = rng.choice(cands)
             f = files[t]
             if kind == 'json_r':
-                ev = [kind, node, t, rng.choice(['str', 'str', 'bytes', 'pathlike', 'fileobj']),
+                ev = [kind, node, t, rng.choice(['str', 'str', 'bytes', 'pathlike', 'fileobj', 'fileobj_pos']),
                       int(rng.random() < 0.2), int(rng.random() < 0.2), int(f.get('permuted') or rng.random() < 0.3), dst]
             elif kind == 'lit_r':
                 ev = [kind, node, t, rng.choice(['file', 'string']), dst]
@@ -299,7 +300,7 @@ def generate(rng, seed, run, tier, focus='C11', xmode=False):
             slots[(nd, dst)] = dict(info, kind='ctx')
         elif kind == 'json_w':
             t = target('json', '.json')
-            events.append([kind, nd, s, t, rng.choice(['str', 'str', 'bytes', 'pathlike', 'fileobj']),
+            events.append([kind, nd, s, t, rng.choice(['str', 'str', 'bytes', 'pathlike', 'fileobj', 'fileobj_pos']),
                            rng.choice([None, None, 0, 2, 4]), int(rng.random() < 0.7), rng.choice([0, 0, 0, 1]),
                            rng.choice(['utf-8', 'utf-8', 'utf-16', 'latin-1', 'utf-32'])])
             files[t] = dict(info, form='json')
@@ -359,7 +360,7 @@ def generate(rng, seed, run, tier, focus='C11', xmode=False):
                 continue
             f = files[t]
             if w[0] == 'json_w':
-                events.append(['json_r', other, t, rng.choice(['str', 'pathlike', 'fileobj']), 0, 0, int(rng.random() < 0.3), dst])
+                events.append(['json_r', other, t, rng.choice(['str', 'pathlike', 'fileobj', 'fileobj_pos']), 0, 0, int(rng.random() < 0.3), dst])
                 kind2 = 'ctx'
             elif w[0] == 'lit_w':
                 events.append(['lit_r', other, t, 'file', dst])
@@ -396,6 +397,7 @@ class Storage:
         self.dir = None
         self.seeds = dict(enumerate(self.cfg.get('node_seeds', []), start=1))
         self.setarch = None
+        self.batt = {}       # (labels, table, kind, battery options) -> first digest seen, with node and hash seed
 
     # ------------------------------------------------------------ plumbing
 
@@ -538,6 +540,15 @@ class Storage:
             rec.check(oracle.split('.')[0] + '.reload_eq_original', r['ok'] and r['eq'] == [True, False, True],
                       lambda: f'{slot}@{node} == recomputed gives {r.get("eq")}')
             info['has_lat'] = True
+        # "equivalent object in the same or in another interpreter process": the transcript of every public query
+        # is the same on whichever node (hash seed, process image) an object with this table is asked
+        key = (info['li'], tuple(info['fca'].rows), info['kind'], cmd['limit'], cmd['text_dumps'])
+        first = self.batt.setdefault(key, (r.get('digest'), node, self.hashseed_of(node)))
+        if first[1] != node or first[2] != self.hashseed_of(node):
+            rec.probe('battery_compared_across_processes')
+        rec.check(oracle.split('.')[0] + '.battery_same_in_every_process', r.get('digest') == first[0],
+                  lambda: f'battery of {slot}@{node} (hash seed {self.hashseed_of(node)}) has digest {r.get("digest", "")[:12]} '
+                          f'but the same table gave {first[0][:12]} on node {first[1]} (hash seed {first[2]})')
         rec.log(f'battery {r.get("digest", "")[:12]} n={r.get("n")}')
 
     def expect_lattice(self, node, slot, info, expected):
@@ -652,10 +663,11 @@ class Storage:
             return rec.log('noop')
         p = self.path(target)
         existed = os.path.exists(p)
-        if mode == 'file':
-            r = self.send(node, {'op': 'tofile', 'slot': slot, 'path': p, 'frmat': 'python-literal'})
+        fname = ('python-literal', 'Python-Literal', 'PYTHON-LITERAL', 'python-literal')[(len(target) + len(slot)) % 4]
+        if mode == 'file':                        # format names are case-insensitive
+            r = self.send(node, {'op': 'tofile', 'slot': slot, 'path': p, 'frmat': fname})
         else:
-            r = self.send(node, {'op': 'tostring', 'slot': slot, 'frmat': 'python-literal'})
+            r = self.send(node, {'op': 'tostring', 'slot': slot, 'frmat': fname})
             if r['ok']:
                 with open(p, 'w', encoding='utf-8') as fh:
                     fh.write(r['text'])
